@@ -2,7 +2,9 @@ namespace occa {
   template <class T>
   json& json::set(const char *key,
                   const T &value) {
-    type = object_;
+    // A value that is not an object yet may still hold the entries of
+    //   an object it used to be: asObject() clears them
+    asObject();
     value_.object[key] = value;
     return *this;
   }
